@@ -35,6 +35,11 @@ EXTRA4 = {
     'two-triples': [('A', 'B', 'C'), ('B', 'C', 'D')],
     'loop3-reversed': [('B', 'A'), ('C', 'B'), ('A', 'C')],
     'four-triples': [('A', 'B', 'C'), ('A', 'B', 'D'), ('A', 'C', 'D'), ('B', 'C', 'D')],
+    # three region levels: a region that both receives from a parent and sends to a child
+    'nested-chain': [('A', 'B', 'C'), ('A', 'B'), ('A',)],
+    'triples-single': [('A', 'B', 'C'), ('B', 'C', 'D'), ('C',)],
+    'triples-pair-single': [('A', 'B', 'C'), ('B', 'C', 'D'), ('C', 'D'), ('D',)],
+    'window3': [('A', 'B', 'C'), ('B', 'C', 'D'), ('A', 'C', 'D')],
 }
 
 
